@@ -50,12 +50,12 @@ def accepts(card, s):
         return False
 
 
-def luhn(L, opt, seps=None):
+def luhn(L, opt, seps=None, base=48):
     mode = '-O' if opt else 'normal'
 
     def h():
         card = P(optimize=1 if opt else 0).card
-        s = digit_string('d', L)
+        s = digit_string('d', L, base)
         ds = [c.v for c in s.cells]
         what = choose('what', ['digit', 'valid', 'subst', 'transp'])
         shown = s
@@ -97,11 +97,11 @@ def luhn(L, opt, seps=None):
             old = good.cells[p]
             oldv = old.v if isinstance(old, Dig) else int(old)
             assume(s_not(s_eq(x, oldv)))
-            bad = SymStr(good.cells[:p] + [Dig(x)] + good.cells[p + 1:])
-            with guard('validate_check_digit', 'C15/exception', lambda: rp({'pos': p, 'x': ev(x)}), allow=(AssertionError,)):
+            bad = SymStr(good.cells[:p] + [Dig(x, base)] + good.cells[p + 1:])
+            with guard('validate_check_digit', 'C15/exception', lambda: rp({'pos': p, 'x': ev(x), 'xbase': base}), allow=(AssertionError,)):
                 ok = accepts(card, bad)
-            require(not ok, 'a number with one digit changed validates', key='C15/accepts-bad/%s' % mode, replay=lambda: rp({'pos': p, 'x': ev(x)}))
-            return {'sample': rp({'pos': p})['args'], 'replay': rp({'pos': p, 'x': ev(x)})}
+            require(not ok, 'a number with one digit changed validates', key='C15/accepts-bad/%s' % mode, replay=lambda: rp({'pos': p, 'x': ev(x), 'xbase': base}))
+            return {'sample': rp({'pos': p})['args'], 'replay': rp({'pos': p, 'x': ev(x), 'xbase': base})}
         if len(pos) < 2:
             return {'sample': rp()['args']}
         j = choose('pair', list(range(len(pos) - 1)))
@@ -133,6 +133,11 @@ def obligations(tier):
                           'all digit strings of length %d: check digit, validity of the completed number, every single-digit substitution at '
                           'every position, every adjacent transposition (different digits, not 0/9)' % L, _funcs,
                           'digit strings longer than %d' % top))
+    for name, base in (('arabic-indic', 0x660), ('fullwidth', 0xff10)) + (() if q else (('devanagari', 0x966), ('extended-arabic-indic', 0x6f0))):
+        for L in ((2, 7, 16) if q else (1, 2, 3, 7, 10, 16, 19)):
+            obs.append(Ob('luhn/%s-digits/len%02d' % (name, L), luhn(L, False, None, base), 300,
+                          'all strings of %d decimal digits written in %s digits (digits for str.isdigit() and int(), hence for the library): same four checks' % (L, name),
+                          _funcs))
     for L, sep in ((8, ('-', 4)), (12, (' ', 4)), (15, ('-', 5))):
         obs.append(Ob('luhn/separators/len%02d' % L, luhn(L, False, sep), 300, '%d digits with %r every %d digits' % (L, sep[0], sep[1]), _funcs))
     return obs
